@@ -3,16 +3,23 @@ sequence (component order and inner order) must be identical; monitor = independ
 import itertools
 
 PROP = "C20"
-LEAN_MODULE = "Ztr.Props.C20"
+LEAN_MODULE = "Ztr.Props.C20C"
+LEAN_DEPS = ["Ztr.Props.C20", "Ztr.Props.C20B"]
 THEOREMS = [
+    "Ztr.Digraph.C20_full",
+    "Ztr.Digraph.C20_sccs",
+    "Ztr.Digraph.C20_default_mode",
+    "Ztr.Digraph.C20_halts",
     "Ztr.Digraph.C20_disjoint_partial",
     "Ztr.Digraph.C20_emitted_is_segment",
+    "Ztr.Digraph.inv3_step",
 ]
 RULE = ("all digraphs with self-loops on <= 3 nodes (quick) / <= 4 nodes (thorough, 2**16) x node insertion orders, "
         "hashable-int, id()-keyed object nodes and id()-keyed unhashable objects that compare equal by value, edges to unknown nodes, repeated add_neighbors, nodes that never "
         "get add_neighbors; random graphs up to 40 nodes; both trivial modes. Non-trivial = graph has an edge; "
         "distinct by (edges, insertion order, mode)")
 ASSUMPTIONS = [
+    "hypotheses of C20_full (no node listed twice, neighbours inside the node set) are checked on every real graph object",
     "set iteration orders are read from the real objects (list(g._nodes.copy()), list(neighbour set)) and handed to "
     "the model; removing elements from a set does not reorder the remaining ones (CPython)",
 ]
@@ -167,7 +174,12 @@ def run(ctx):
             ctx.violation("sccs(trivial=%r) = %r, expected components %r" % (trivial, out, sorted(map(sorted, want))),
                           case, signature="wrong-components")
             continue
-        if "error" in ans:
+        # the theorems' hypotheses (`order.Nodup`, neighbour lists inside the node set) must hold of the real object
+        if len(set(o)) != len(o) or any(m not in set(o) for x in o for m in nbrs[x]) or \
+                any(nbrs[x] for x in range(len(nbrs)) if x not in set(o)):
+            ctx.drift("digraph.hypotheses", "the real graph object violates the hypotheses of C20_full: nodes %r, "
+                      "neighbour lists %r" % (o, nbrs), case)
+        elif "error" in ans:
             ctx.drift("digraph", "driver error %s" % ans["error"], case)
         elif not ans["halted"] or ans["out"] != out:
             ctx.drift("digraph.sccs", "model emitted %r (halted=%r), real %r" % (ans["out"], ans["halted"], out), case)
